@@ -10,7 +10,7 @@ Lemma frag_polyak tau p t :
   polyak tau p t == polyak_add_a t1 p tau + polyak_alpha t1 p tau * polyak_add_b t1 p tau /\
   polyak_out t1 p tau = t1 /\
   (polyak_scale_op, polyak_add_op, polyak_zip, polyak_zip_first, polyak_zip_second) = (1, 1, 1, 1, 2)%Z.
-Proof. cbn zeta. unfold polyak, polyak_scale, polyak_add_a, polyak_add_b, polyak_alpha, polyak_out. repeat split; try reflexivity. ring. Qed.
+Proof. cbn zeta. unfold polyak, polyak_scale, polyak_add_a, polyak_add_b, polyak_alpha, polyak_out. split; [ring|split; reflexivity]. Qed.
 
 (* every polyak_update call of the algorithms: (source list, target list) = (online X, target X) and the coefficient is the configured
    tau for parameters, 1.0 for running statistics (ids: 1/2 q_net, 3/4 batch_norm_stats, 5/6 critic, 7/8 actor, 9/10 critic stats, 11/12 actor stats) *)
